@@ -1068,6 +1068,21 @@ func runCheck(o *Options) (int, *Evidence) {
 				brokenOnly = false
 			}
 		}
+		// every failing path of the obligation runs through the head of a loop that has no
+		// invariant at all (a loop that is new, or that lost its contract with the function it
+		// was in): the state behind such a head is arbitrary, whatever is or is not proved
+		// there says nothing about the runs of the code
+		weakOnly := len(ob.Queries) > 0 && ob.Kind != "ownership"
+		for _, j := range ob.Queries {
+			if j.res.Status != "unsat" && !j.q.Weak {
+				weakOnly = false
+			}
+		}
+		if weakOnly && !brokenOnly {
+			undec = append(undec, "UNDISCHARGED "+n+" (every failing path runs behind a loop without invariants; "+ob.Status+")")
+			undecObs = append(undecObs, ob)
+			continue
+		}
 		if brokenOnly && ob.Kind != "ownership" {
 			// the clause itself cannot be evaluated any more (it names something that is gone), or
 			// every failing path runs through a loop with such an invariant: a contract out of date
